@@ -203,6 +203,18 @@ class Gen:
         op["body"] = self.body(depth)
         if subject and rng.random() < 0.15:
             op["body"].append({"op": "eternity"})
+        if subject and rng.random() < 0.15 and op["until"]["k"] != "delay":
+            # the very same notification object guards a block nested in the body as well (a
+            # module-level `DEADLINE = time >= 10` / one Flag used at two levels of one activity)
+            shared = {"k": "shared", "n": op["label"] + "N", "x": op["until"]}
+            op["until"] = shared
+            inner = {"op": "scope", "label": self.fresh("S"), "children": [], "until": shared,
+                     "body": [rng.choice([{"op": "sleep", "d": rng.choice(DELAYS + [4])},
+                                          {"op": "eternity"}])]}
+            op["body"].insert(rng.randint(0, len(op["body"])), inner)
+            if rng.random() < 0.5:
+                op["body"].append({"op": "sleep", "d": rng.choice(DELAYS + [4])})
+                op["body"].append({"op": "now", "tag": "late"})
         return op
 
     def program(self):
@@ -275,6 +287,8 @@ CMP = {"<": lambda a, b: a < b, "<=": lambda a, b: a <= b, "==": lambda a, b: a 
 def trigger_time(expr, rec, twin, entry_pos, entry_time, resources):
     """Earliest virtual time >= entry at which the notification fires; inf if never."""
     kind = expr["k"]
+    if kind == "shared":
+        return trigger_time(expr["x"], rec, twin, entry_pos, entry_time, resources)
     if kind == "delay":
         return entry_time + expr["d"]
     if kind == "instant":
